@@ -136,8 +136,53 @@ def import_new(src, tag):
     return new
 
 
+def summary():
+    rows = []
+    for sid in sorted(os.listdir(SEEDED)):
+        mp = os.path.join(SEEDED, sid, 'meta.json')
+        if not os.path.exists(mp):
+            continue
+        m = json.load(open(mp))
+        c = m.get('confirmed', {})
+        ok = c.get('demo_passes_without') and c.get(
+            'demo_fails_with_patch') and (
+            c.get('repo_tests_pass_with_patch') is True or
+            isinstance(c.get('repo_tests_pass_with_patch'), str))
+        det = m.get('detected_by') or []
+        why = ''
+        for ck, r in (m.get('checks') or {}).items():
+            if r.get('detail'):
+                why = r['detail'][0].strip()[:160]
+                break
+        rows.append((sid, m.get('property', '?'), 'yes' if ok else '?',
+                     ', '.join(det) if det else '**not detected**',
+                     (m.get('summary') or '').replace('\n', ' ')[:220],
+                     (m.get('needs') or m.get('needs_to_manifest') or
+                      '').replace('\n', ' ')[:200], why))
+    with open(os.path.join(SEEDED, 'SUMMARY.md'), 'w') as f:
+        f.write('# Seeded defects and the checks that catch them\n\n'
+                'Generated by tools/reeval.py from the meta.json files. '
+                'Each defect was produced by an independent sub-agent that '
+                'saw only the text of one property; "confirmed" = the patch '
+                'applies, the repository tests pass with it, the demo fails '
+                'with it and passes without.\n\n')
+        n = len(rows)
+        d = sum(1 for r in rows if not r[3].startswith('**'))
+        f.write('%d defects, %d detected by at least one quick check.\n\n'
+                % (n, d))
+        f.write('| id | property | confirmed | detected by | what was '
+                'changed | needs | first rejection |\n|---|---|---|---|---|'
+                '---|---|\n')
+        for r in rows:
+            f.write('| ' + ' | '.join(x.replace('|', '/') for x in r) +
+                    ' |\n')
+    print('summary: %d defects, %d detected' % (n, d))
+
+
 def main():
     args = sys.argv[1:]
+    if args == ['--summary']:
+        return summary()
     jobs = 3
     if '-j' in args:
         jobs = int(args[args.index('-j') + 1])
@@ -168,6 +213,7 @@ def main():
             if not ok and 'error' not in res:
                 # keep only defects that are confirmed
                 shutil.rmtree(os.path.join(SEEDED, sid), ignore_errors=True)
+    summary()
 
 
 if __name__ == '__main__':
